@@ -223,6 +223,11 @@ theorem assignment_converts_to_left_partial :
   ∧ (∀ c ∈ T.ass, (c.l, c.r) ≠ (Comb.int, Comb.double) → AssCellOk c = true) := by
   decide +kernel
 
+/-- **all cells** of expr_conv_ass_type: the result type is the left type and the conversion goes right → left
+(full strength since the `fix:` commit 8e26181 repaired the (int, double) cell; regenerated from the source on every run) -/
+theorem assignment_converts_to_left : AssignmentConvertsToLeft T.ass := by
+  decide +kernel
+
 /-- while the pinned cell is in the table, the unrestricted statement is false -/
 theorem assignment_converts_to_left_counterexample :
     pinnedAssIntDouble ∈ T.ass → ¬ AssignmentConvertsToLeft T.ass := by
